@@ -5,7 +5,10 @@ from common import *
 import vm_corr, vm_checks, progs
 
 PROP_MODULE = "NeverModel.Props.C07"
-REQUIRED = ["Never.C07.verified_table_wellformed", "Never.C07.verified_every_fault_has_handler", "Never.C07.verified_nonempty", "Never.C07.simple_effect_sound_arith", "Never.C07.simple_effect_sound", "Never.C07.verified_flow", "Never.C07.verified_step_keeps_height", "Never.C07.verified_branch_keeps_height"]
+REQUIRED = ["Never.C07.verified_table_wellformed", "Never.C07.verified_every_fault_has_handler", "Never.C07.verified_nonempty", "Never.C07.simple_effect_sound_arith", "Never.C07.simple_effect_sound", "Never.C07.verified_flow", "Never.C07.verified_step_keeps_height", "Never.C07.verified_branch_keeps_height",
+            "Never.C07.verified_frame_heights", "Never.C07.verified_mark_step", "Never.C07.verified_slide_step", "Never.C07.verified_clear_stack_step",
+            "Never.C07.verified_data_step", "Never.C07.verified_local_in_frame", "Never.C07.frame_slot_is_read",
+            "Never.C07.verified_step_in_activation", "Never.C07.verified_run_in_activation", "Never.C07.verified_run_fn_in_activation"]
 
 def verify_dump(path):
     """-> (verdict line, {address: (height, nparams)} for the addresses inside function bodies)"""
